@@ -603,6 +603,67 @@ func runC16(seed int64, tier string, sc *Script, withBody bool) map[string]any {
 			evals++
 		}
 	}
+	// many goroutines share one context that carries three scope hints for the registry; each
+	// asks for another repository and is challenged for that repository's scope: every request
+	// ends with the registry's 200 (its token covers its own repository), and no token fetch
+	// asks for a scope that another request was challenged with
+	{
+		rounds := 60
+		if tier == "thorough" {
+			rounds = 1500
+		}
+		for ri := 0; ri < rounds; ri++ {
+			sc.Case("shared-context-hints")
+			sc.NonTrivial()
+			hn := &hintNet{}
+			client := &auth.Client{Client: &http.Client{Transport: hn},
+				Credential: auth.StaticCredential("h1.test", auth.Credential{Username: "user", Password: "PW-h1"})}
+			if ri%2 == 0 {
+				client.Cache = auth.NewCache()
+			}
+			ctx := auth.WithScopesForHost(context.Background(), "h1.test", "repository:base:pull", "repository:other:pull", "registry:catalog:*")
+			var wg sync.WaitGroup
+			var mu sync.Mutex
+			bad := ""
+			for w := 0; w < 8; w++ {
+				wg.Add(1)
+				go func(w int) {
+					defer wg.Done()
+					for k := 0; k < 12; k++ {
+						repo := fmt.Sprintf("r%d", (w+k)%8)
+						req, _ := http.NewRequestWithContext(ctx, http.MethodGet, "https://h1.test/v2/"+repo+"/manifests/x", nil)
+						resp, err := client.Do(req)
+						v := ""
+						switch {
+						case err != nil:
+							v = "error:" + strings.ReplaceAll(err.Error(), " ", "_")
+						case resp.StatusCode != 200:
+							v = fmt.Sprintf("valid-credentials-ended-with-%d(repo=%s)", resp.StatusCode, repo)
+						}
+						if resp != nil {
+							resp.Body.Close()
+						}
+						if v != "" {
+							mu.Lock()
+							if bad == "" {
+								bad = v
+							}
+							mu.Unlock()
+						}
+					}
+				}(w)
+			}
+			wg.Wait()
+			verdict := "clean"
+			if bad != "" {
+				verdict = bad
+			} else if m := hn.mixed(); m != "" {
+				verdict = "token-fetch-with-another-requests-scope(" + m + ")"
+			}
+			sc.Op(verdict, "au scan sharedhints workers=8 cache=%d", ri%2)
+			evals++
+		}
+	}
 	// CleanScopes: exhaustive short lists over a pool of well-formed and malformed scopes
 	sc.Case("clean-scopes")
 	sc.NonTrivial()
@@ -649,6 +710,67 @@ func runC16(seed int64, tier string, sc *Script, withBody bool) map[string]any {
 	}
 	sc.Extra["evaluations"] = evals
 	return nil
+}
+
+// hintNet: one registry whose every repository wants its own pull scope, and a token endpoint
+// that issues a token naming the scopes it was asked for.
+type hintNet struct {
+	mu      sync.Mutex
+	fetches [][]string
+}
+
+func (n *hintNet) RoundTrip(req *http.Request) (*http.Response, error) {
+	mk := func(code int, body string) *http.Response {
+		return &http.Response{StatusCode: code, Status: fmt.Sprint(code), Header: http.Header{}, Body: io.NopCloser(strings.NewReader(body)), Request: req}
+	}
+	if req.URL.Host == "realm.test" {
+		scopes := req.URL.Query()["scope"]
+		if len(scopes) == 1 && strings.Contains(scopes[0], " ") {
+			scopes = strings.Fields(scopes[0])
+		}
+		if req.Body != nil {
+			b, _ := io.ReadAll(req.Body)
+			if q, err := url.ParseQuery(string(b)); err == nil && q.Get("scope") != "" {
+				scopes = strings.Fields(q.Get("scope"))
+			}
+		}
+		n.mu.Lock()
+		n.fetches = append(n.fetches, scopes)
+		n.mu.Unlock()
+		tok := "TOK/" + strings.Join(scopes, "/")
+		return mk(200, fmt.Sprintf(`{"token":%q,"access_token":%q}`, tok, tok)), nil
+	}
+	parts := strings.Split(req.URL.Path, "/") // /v2/<repo>/manifests/x
+	repo := parts[2]
+	need := "repository:" + repo + ":pull"
+	if a := req.Header.Get("Authorization"); strings.HasPrefix(a, "Bearer TOK/") {
+		for _, sc := range strings.Split(strings.TrimPrefix(a, "Bearer TOK/"), "/") {
+			if sc == need || sc == "repository:"+repo+":*" {
+				return mk(200, ""), nil
+			}
+		}
+	}
+	resp := mk(401, "")
+	resp.Header.Set("Www-Authenticate", fmt.Sprintf(`Bearer realm="https://realm.test/token",service="svc",scope=%q`, need))
+	return resp, nil
+}
+
+// mixed: a token fetch that names the challenge scopes of two different requests.
+func (n *hintNet) mixed() string {
+	n.mu.Lock()
+	defer n.mu.Unlock()
+	for _, f := range n.fetches {
+		challenged := 0
+		for _, sc := range f {
+			if strings.HasPrefix(sc, "repository:r") {
+				challenged++
+			}
+		}
+		if challenged != 1 {
+			return strings.Join(f, ",")
+		}
+	}
+	return ""
 }
 
 // concNet is a stateless, goroutine-safe network for the concurrent mix: registry h1 asks for
